@@ -245,7 +245,17 @@ def main():
                         what = parts[3] if len(parts) > 3 else parts[2]
                         violations.append((key, None, True, "case %s of %s: %s" % (parts[1], name, what), (name, parts[1])))
     if oracle_miss:
-        notes.append("oracle table misses (harness gap, not a verdict): %d" % len(oracle_miss))
+        # the implementation showed the model a signature, key or value that the harness never built
+        # nor noted (none occurs on the unchanged tree): that history cannot be compared any further
+        notes.append("oracle table misses: %d" % len(oracle_miss))
+        name, line = oracle_miss[0]
+        parts = line.split(" ", 3)
+        cid = parts[1] if len(parts) > 1 else "?"
+        path = replay_file("oracle_miss_%s_%s" % (name, cid),
+                           "Correspondence obligation broken: the implementation presented a value (signature, public key, output value) that is in none of the oracle tables recorded for this history, so the model cannot follow it.\n"
+                           "suite shard %s\n%s\n(%d such histories)\n\ncase:\n%s\n" % (name, line, len(oracle_miss), extract_case(work, name, cid)))
+        violations.append(("oracle-miss", path, False,
+                           "%d histories show the model a value outside the recorded oracle tables (first: case %s of %s: %s)" % (len(oracle_miss), cid, name, parts[3] if len(parts) > 3 else "")))
 
     # a suite whose generated situations collapse (its set-up no longer goes through on this tree)
     # shows nothing: the property is then no longer shown to hold on that suite
